@@ -8,8 +8,12 @@
     gguf-layers <maxSeek> <hex>
         -> what POST /api/create makes of an uploaded file: `err` | `loop` | `death` | `ok sizes=<n1,n2,…> media=<m|a|p,…>` (one model layer per
            GGUF found back to back in the file, with the bytes each layer gets)
+    gguf-from <hex> / gguf-show <hex>
+        -> what POST /api/create {"from"} / POST /api/show (verbose) answer for an installed model whose weights are the file:
+           `ok` | `err` | `death`
 -/
 import OllamaVerif.Model.Gguf
+import OllamaVerif.Model.GgufApi
 import Oracle.Util
 import Oracle.Lib.GgufShow
 namespace Oracle.C10
@@ -41,6 +45,22 @@ def handle (toks : List String) : Option String :=
         | some (.error _) => "err"
         | some (.ok ls) => "ok sizes=" ++ joinWith "," (ls.map fun l => toString l.size)
             ++ " media=" ++ joinWith "," (ls.map fun l => if l.media = 1 then "a" else if l.media = 2 then "p" else "m"))) rest
+  | "gguf-from" :: rest =>
+    -- POST /api/create {"from": m} on an installed model whose single model layer is the file
+    runTP (do
+      let bs ← hex
+      pure (match createFrom [bs] none Guards.tree with
+        | .error (.panic _) => "death"
+        | .error _ => "err"
+        | .ok _ => "ok")) rest
+  | "gguf-show" :: rest =>
+    -- POST /api/show (verbose) on an installed model whose weights are the file
+    runTP (do
+      let bs ← hex
+      pure (match showModel bs true none Guards.tree with
+        | .error (.panic _) => "death"
+        | .error _ => "err"
+        | .ok _ => "ok")) rest
   | _ => none
 
 end Oracle.C10
